@@ -1673,7 +1673,46 @@ bool TypeChecker::checkExpression(expression_t expr)
             handleError(expr, "A sum can only  be made over integer, double, invariant or guard expressions.");
             return false;
         }
+
+        if (expr[2].changes_any_variable()) {
+            handleError(expr[2], "$Expression_must_be_side-effect_free");
+        }
         break;
+
+    case FORALL_DYNAMIC:  // as FORALL, over the processes of a dynamic template: 0 = binder, 1 = template, 2 = body
+        if (is_integral(expr[2])) {
+            type = type_t::create_primitive(Constants::BOOL);
+        } else if (is_invariant(expr[2])) {
+            type = type_t::create_primitive(INVARIANT);
+        } else if (isInvariantWR(expr[2])) {
+            type = type_t::create_primitive(INVARIANT_WR);
+        } else if (is_guard(expr[2])) {
+            type = type_t::create_primitive(GUARD);
+        } else if (is_constraint(expr[2])) {
+            type = type_t::create_primitive(CONSTRAINT);
+        } else {
+            handleError(expr[2], "$Boolean_expected");
+        }
+
+        if (expr[2].changes_any_variable()) {
+            handleError(expr[2], "$Expression_must_be_side-effect_free");
+        }
+        break;
+
+    case EXISTS_DYNAMIC:  // as EXISTS
+        if (is_integral(expr[2])) {
+            type = type_t::create_primitive(Constants::BOOL);
+        } else if (is_constraint(expr[2])) {
+            type = type_t::create_primitive(CONSTRAINT);
+        } else {
+            handleError(expr[2], "$Boolean_expected");
+        }
+
+        if (expr[2].changes_any_variable()) {
+            handleError(expr[2], "$Expression_must_be_side-effect_free");
+        }
+        break;
+
     case FRACTION:
         if (is_integral(expr[0]) && is_integral(expr[1])) {
             type = type_t::create_primitive(Constants::FRACTION);
